@@ -19,16 +19,16 @@ pub const EXTRA_FLAGS: [&str; 4] = ["flip_changes_which_strand_is_observed", "re
 
 pub fn plan(quick: bool) -> Vec<Part> {
     let mut v = vec![];
-    let (l4, p4, t4) = if quick { (8, 5, 7) } else { (11, 6, 9) };
-    let (l5, t5) = if quick { (8, 7) } else { (11, 9) };
-    let l6 = if quick { 8 } else { 11 };
+    let (l4, p4, t4) = if quick { (8, 5, 7) } else { (10, 5, 9) };
+    let (l5, t5) = if quick { (8, 7) } else { (10, 9) };
+    let l6 = if quick { 8 } else { 10 };
     v.push(Part::new("C06", "R1+RT", 4, Space::singles(4, l4).plus(Space::thresholds(4, t4))));
     v.push(Part::new("C06", "R2", 4, Space::pairs(4, p4)));
     v.push(Part::new("C06", "R1+RT", 5, Space::singles(5, l5).plus(Space::thresholds(5, t5))));
     v.push(Part::new("C06", "R1", 6, Space::singles(6, l6)));
     if !quick {
-        v.push(Part::new("C06", "R2", 5, Space::pairs(5, 6)));
-        v.push(Part::new("C06", "R3", 4, Space::triples(4, 5)));
+        v.push(Part::new("C06", "R2", 5, Space { segs: vec![vcommon::families::Seg::Pair(5, 5), vcommon::families::Seg::Pair(6, 5)] }));
+        v.push(Part::new("C06", "R3", 4, Space::triples(4, 4)));
     }
     for k in BIG_K {
         v.push(Part::new("C06", "catalogue", k, Space { segs: vec![catalogue(k)] }));
